@@ -90,7 +90,7 @@ type Exec struct {
 	snapLen    int
 	initDepth  int
 	events    []Event
-	Extern    func(x *Exec, fr *frame, name string, fn *ssa.Function, args []Value) (Value, bool)
+	Extern    func(x *Exec, name string, fn *ssa.Function, args []Value) (Value, bool)
 }
 
 // Event is an observable effect recorded by stubs (file creation etc.).
@@ -291,8 +291,8 @@ func (x *Exec) call(caller *frame, fn *ssa.Function, args []Value, bindings []Va
 	if strings.HasPrefix(fn.Name(), "nd_") {
 		return x.ndCall(caller, fn, args)
 	}
-	if x.Extern != nil {
-		if v, ok := x.Extern(x, caller, name, fn, args); ok {
+	if x.Extern != nil && len(fn.Blocks) == 0 {
+		if v, ok := x.Extern(x, name, fn, args); ok {
 			return v
 		}
 	}
@@ -920,3 +920,71 @@ func (x *Exec) typeAssert(fr *frame, i *ssa.TypeAssert) Value {
 // ---- goroutines (delegated to sched.go) ------------------------------------
 
 func (x *Exec) chanSend(fr *frame, i *ssa.Send) { x.unsupported("channel send in front end G builtin model") }
+
+// ---- API for the translation-validation driver --------------------------------
+
+// PanicInfo describes a Go-level panic that escaped a call.
+type PanicInfo struct {
+	Class string // "" = user panic
+	Msg   string
+	Val   Value
+}
+
+// StartShared resets the per-path state without touching the machine's memory
+// (used when several executors share one machine).
+func (x *Exec) StartShared() { x.resetPath() }
+
+// CallGo runs fn on args with Go semantics; a panic that escapes is returned.
+func (x *Exec) CallGo(fn *ssa.Function, args []Value) (res Value, pan *PanicInfo) {
+	defer func() {
+		if r := recover(); r != nil {
+			if gp, ok := r.(*goPanic); ok {
+				pan = &PanicInfo{Class: gp.class, Msg: gp.msg, Val: gp.val}
+				return
+			}
+			panic(r)
+		}
+	}()
+	res = x.call(nil, fn, args, nil)
+	return
+}
+
+// ConstStringOf reads a concrete string value (for panic messages).
+func (x *Exec) ConstStringOf(v Value) (s string, ok bool) {
+	defer func() {
+		if r := recover(); r != nil {
+			ok = false
+		}
+	}()
+	return x.constString(v), true
+}
+
+// Layout exposes the machine type of a Go type.
+func (x *Exec) LayoutOf(t types.Type) *core.Type { return x.L.Of(t) }
+
+// FreshExtern returns an arbitrary value of type t (result of an external call).
+func (x *Exec) FreshOf(t types.Type, name string) Value {
+	return freshOf(x.M, x.L.Of(t), name)
+}
+
+func freshOf(m *core.Machine, t *core.Type, name string) Value {
+	switch t.Kind {
+	case core.KBool:
+		return m.Fresh(name, 0)
+	case core.KInt:
+		return m.Fresh(name, t.Bits)
+	case core.KStruct:
+		a := make(Agg, len(t.Fields))
+		for i, f := range t.Fields {
+			a[i] = freshOf(m, f.T, fmt.Sprintf("%s.%d", name, i))
+		}
+		return a
+	case core.KArray:
+		a := make(Agg, t.N)
+		for i := range a {
+			a[i] = freshOf(m, t.Elem, fmt.Sprintf("%s[%d]", name, i))
+		}
+		return a
+	}
+	return nil
+}
